@@ -206,11 +206,14 @@ def r_literal(ctx: Ctx, rt: RT):
         for kind in ("base", "model"):
             def thunk(I, kind=kind):
                 seen.clear()
-                iso = rt.mk_iso(kind, "abs-molar-K", props={"user": Tok("t_user"), "count": Obj(kind="PyInt", label="int:count"), "flag": True})
+                iso = rt.mk_iso(kind, "abs-molar-K", props={"user": Tok("t_user"), "count": Obj(kind="PyInt", label="int:count"), "flag": True,
+                                                            "pair": (Obj(kind="PyInt", label="int:in-tuple"), Tok("t_x")),
+                                                            "listed": [Obj(kind="PyInt", label="int:in-list")]})
                 if kind == "model":
                     m = iso.attrs["model"]
                     first = next(iter(m.attrs["params"]))
                     m.attrs["params"][first] = Obj(kind="PyInt", label="int:param")
+                    m.attrs["pressure_range"] = (Obj(kind="PyInt", label="int:range-lo"), Obj(kind="PyInt", label="int:range-hi"))
                 I.call_func(hf, [iso], {}, None)
                 return seen.get("doc")
             for oc, _ in rt.explore(thunk):
